@@ -4,24 +4,51 @@
    (TX_RECONSIDERABLE), SingleTRUCChecks on the mempool parents (TX_MEMPOOL_POLICY "TRUC-violation");
    AcceptMultipleTransactionsInternal = IsWellFormedPackage, PreChecks of every member (no fee check), then
    PackageTRUCChecks of every member (PCKG_POLICY "TRUC-violation", no per-transaction result), then the package
-   fee rate.  Scenarios never offer a sibling-eviction candidate or a mempool conflict (no RBF).
+   fee rate.  Scenarios never offer a sibling-eviction candidate; a mempool conflict is only met by a transaction evaluated
+   alone (single-transaction replacement), never by a sub-package (no package RBF).
    Executable definitions only. *)
 From BV Require Import lib.Ints gen.Params_gen model.Package model.PackageAccept model.Truc.
 Local Open Scope Z_scope.
 
 Definition WHY_TRUC : Z := 3.
+Definition WHY_INSUFFICIENT_FEE : Z := 4.   (* TX_RECONSIDERABLE "insufficient fee" *)
+Definition WHY_SPENDS_CONFLICT : Z := 5.    (* TX_CONSENSUS "bad-txns-spends-conflicting-tx" *)
 Definition PS_CODE_TRUC : Z := 1.          (* PCKG_POLICY "TRUC-violation" *)
 
 Section Toy3.
   Variable utxo : outpoint -> bool.
 
+  (* executable form of desc_closed: nothing left in the mempool spends an output of an evicted transaction *)
+  Definition desc_closed_b (P : pool) (R : list Z) : bool :=
+    forallb (fun t => negb (existsb (fun x => spends t x) R) || zmem (p_txid t) R) P.
+  (* CFeeRate(incremental relay fee per 1000 vB).GetFee(vsize): rounded up *)
+  Definition incr_fee (vsize : Z) : Z := (MPP_DEFAULT_INCREMENTAL_RELAY_FEE * vsize + 999) / 1000.
+
+  (* a transaction evaluated alone (replacement allowed): inputs, fee rate, TRUC rules with the direct conflicts; then,
+     when it conflicts with mempool transactions, ReplacementChecks: the conflicts and all their descendants are to be
+     evicted, PaysForRBF (fee >= evicted fees, and the difference pays incremental relay fee for its own size:
+     TX_RECONSIDERABLE "insufficient fee"); then EntriesAndTxidsDisjoint (TX_CONSENSUS
+     "bad-txns-spends-conflicting-tx": an input is an output of something it evicts).  The feerate-diagram rule is
+     not modelled: scenarios replace with a fee far above everything evicted. *)
   Definition toy3_single (P : pool) (t : ptx) : tx_result * pool :=
     if negb (inputs_avail utxo P t) then (R_invalid true WHY_MISSING_INPUTS, P)
     else if p_fee t <? fee_for (vsize_of t) then (R_invalid true WHY_MIN_RELAY_FEE, P)
-    else match single_truc_checks P t (parents_of P t) [] (vsize_of t) with
-         | Some _ => (R_invalid false WHY_TRUC, P)
-         | None => (R_valid, P ++ [t])
-         end.
+    else
+      let conf := direct_conflicts P t in
+      match single_truc_checks P t (parents_of P t) conf (vsize_of t) with
+      | Some _ => (R_invalid false WHY_TRUC, P)
+      | None =>
+        match conf with
+        | [] => (R_valid, P ++ [t])
+        | _ =>
+          let R := desc_txids P conf in
+          let old_fees := zsum (map p_fee (filter (fun e => zmem (p_txid e) R) P)) in
+          if (p_fee t <? old_fees) || (p_fee t - old_fees <? incr_fee (vsize_of t)) then (R_invalid true WHY_INSUFFICIENT_FEE, P)
+          else if negb (inputs_avail utxo (remove_set R P) t) then (R_invalid false WHY_SPENDS_CONFLICT, P)
+          else if negb (desc_closed_b P R) then (R_invalid false WHY_SPENDS_CONFLICT, P)   (* never: the closure is complete *)
+          else (R_valid, remove_set R P ++ [t])
+        end
+      end.
 
   (* PreChecks of each member in order; the view gains the outputs of the earlier members, the TRUC check looks at
      the mempool only (ws.m_parents = m_pool.GetParents) *)
